@@ -242,14 +242,18 @@ CHECKS["C09"] = dict(
     design="4/C09")
 
 CHECKS["C05"] = dict(
-    level="translation_validation", engine="T",
+    level="translation_validation", engine="T+X",
     technique="per generated program: real lian run (main.py semantic); CrossHair (z3) executes the reference GIR interpreter under "
               "Python's scoping rules with symbolic inputs and compares, at every executed identifier occurrence, the declaration "
-              "owning the accessed storage cell with the declaration lian resolved the occurrence to",
+              "owning the accessed storage cell with the declaration lian resolved the occurrence to; kernel: CrossHair symbolic "
+              "execution (z3) of the real summarize_symbol_decls + resolve_symbol_source_decl on every small scope forest",
     text="For every program of the scoping family and ALL inputs (so occurrences behind any branch are reached), each executed "
          "read or write of a name is bound by lian (s2space_p1/p3 symbol ids) to the declaration that the language's lexical "
          "scoping selects (parameter, local, enclosing function, module, global/nonlocal). CONFIRMED = all paths of all programs "
-         "in the slice exhausted. The renaming clause and non-Python scoping are outside.",
+         "in the slice exhausted. Kernel (language independent): for every forest of 3 scopes (method/class/block/for kinds, any "
+         "nesting, scopes optionally named like the symbol, any subset declaring it), every current scope and both lookup modes, "
+         "the real visible-scope closure and resolver return the declaration of the nearest scope of the lexical chain, the "
+         "unit's top-level blocks only as a fallback, else unresolved. The renaming clause is outside.",
     note="Trusted: the reference interpreter's Python scoping (validated against CPython by C01 on closure/global programs), "
          "CrossHair/z3. One open known finding (class attribute captures a global inside methods).",
     design="4/C05")
